@@ -1,94 +1,12 @@
-(* refcount: the monitors tied to the model, part 7: the monitors' idea of the stored generation ([m_cur]) is the model's
-   (resolved, generation, error), and clause 9.4 (released() of the stored generation drops it and resolves afresh). *)
+(* refcount: the monitors tied to the model, part 7: clause 9.4 (released() of the stored generation drops it and resolves afresh).
+   (That the monitors' idea of the stored generation ([m_cur]) is the model's (resolved, generation, error): ProofsMon18.v.) *)
 From Util Require Import Common.Base Common.ListLemmas RefCount.Model RefCount.Spec RefCount.Proofs RefCount.ProofsC08 RefCount.ProofsC08b
   RefCount.ProofsC09 RefCount.ProofsC10 RefCount.ProofsC10a RefCount.ProofsC10b RefCount.ProofsCodec RefCount.ProofsMon RefCount.ProofsMon2 RefCount.ProofsMon3
   RefCount.ProofsMon4 RefCount.ProofsMon5 RefCount.ProofsMon6.
 Open Scope nat_scope.
 
-Definition cur_chk (s : st) (g e0 : N) : bool :=
-  if N.eqb e0 0 then N.eqb (nn (target s)) (g + 1) && N.eqb (nn (terr s)) 0 else N.eqb (nn (terr s)) e0.
-
-Lemma cur_chk_resolved s : InvV s -> resolved s = true -> cur_chk s (nn (vgen s)) (nn (verr s)) = true.
-Proof.
-  intros [V1 [_ [_ V5]]] Er. destruct (V1 Er) as [Hv _]. destruct (V5 Er) as [T1 T2]. unfold cur_chk.
-  change 0%N with (nn 0). rewrite nn_eqb. destruct (Nat.eqb_spec (verr s) 0) as [E|E].
-  - destruct (T1 E) as [Et Ee]. destruct Hv as [Hv|[_ Hv]]; [|contradiction]. rewrite Et, Hv, Ee, nn_S, !N.eqb_refl. reflexivity.
-  - destruct (T2 E) as [_ Ee]. rewrite Ee. apply N.eqb_refl.
-Qed.
-
-Lemma cur_chk_unresolved s g e0 : InvV s -> resolved s = false -> cur_chk s g e0 = false.
-Proof.
-  intros [_ [V2 _]] Er. destruct (V2 Er) as [_ [_ [_ [Et Ee]]]]. unfold cur_chk. rewrite Et, Ee. change (nn 0) with 0%N.
-  destruct (N.eqb_spec e0 0) as [E|E].
-  - destruct (N.eqb_spec 0 (g + 1)) as [E2|E2]; [exfalso; lia | reflexivity].
-  - apply N.eqb_neq. auto.
-Qed.
-
 Lemma cur_of_vf s s' : vf s' = vf s -> cur_of s' = cur_of s.
 Proof. intros H. destruct (vf_fields _ _ H) as [A [_ [C [D _]]]]. unfold cur_of. now rewrite A, C, D. Qed.
-
-Lemma cur_chk_vf s s' g e0 : vf s' = vf s -> cur_chk s' g e0 = cur_chk s g e0.
-Proof. intros H. destruct (vf_fields _ _ H) as [_ [_ [_ [_ [E F]]]]]. unfold cur_chk. now rewrite E, F. Qed.
-
-Section Cur.
-  Variables (m : mst) (h : hst) (e : list N) (e0 : ev) (rets : list N).
-  Hypothesis HRh : HR h.
-  Hypothesis HP : Rproj m h.
-  Hypothesis Hd : dec h e e0 rets.
-  Hypothesis Hc : hconst h = false.
-  Hypothesis Hcur : m_cur m = cur_of (hs h).
-  Local Notation s := (hs h).
-  Local Notation s1 := (step repaired (hs h) e0).
-  Local Notation s' := (settle (step repaired (hs h) e0)).
-  Local Notation p := (pobs_of rets (settle (step repaired (hs h) e0)) (hrel h)).
-
-  Lemma u_cur_unfold :
-    u_cur m e p = match u_cur2 m e p with
-                  | Some (g, e1) => if cur_chk s' g e1 then u_cur2 m e p else None
-                  | None => None
-                  end.
-  Proof.
-    unfold u_cur, cur_chk, u_vof. rewrite (rp_const m h HP), Hc. reflexivity.
-  Qed.
-
-  Lemma upd_cur : u_cur m e p = cur_of s'.
-  Proof.
-    rewrite u_cur_unfold. pose proof (HR_inv h HRh Hc) as I0. pose proof (HR_inv _ (HR_mid h e e0 rets HRh Hd) Hc) as I1. cbn [hs] in I1.
-    pose proof (settle_vf s1) as V'. rewrite (cur_of_vf _ _ V').
-    assert (CK : forall g e1, cur_chk s' g e1 = cur_chk s1 g e1) by (intros; now apply cur_chk_vf).
-    destruct I0 as [[HN [HS [_ [_ [HV0 _]]]]] _]. destruct I1 as [[_ [_ [_ [_ [HV1 _]]]]] _].
-    pose proof (HR_chain h HRh) as HCh.
-    assert (NS : (forall g, e0 <> EStore g) -> u_cur2 m e p = cur_of s).
-    { intros Hne. unfold u_cur2, u_stored_now. destruct Hd; try exact Hcur. exfalso. exact (Hne _ eq_refl). }
-    assert (Gen : (forall g, e0 <> EStore g) ->
-                  match u_cur2 m e p with Some (g, e1) => if cur_chk s' g e1 then u_cur2 m e p else None | None => None end = cur_of s1).
-    { intros Hne. rewrite (NS Hne). destruct (vkeep_step s e0 Hne) as [Er|Ev].
-      - unfold cur_of at 3. rewrite Er. unfold cur_of. destruct (resolved s); [|reflexivity]. now rewrite CK, (cur_chk_unresolved s1 _ _ HV1 Er).
-      - rewrite (cur_of_vf _ _ Ev). unfold cur_of. destruct (resolved s) eqn:Er; [|reflexivity].
-        now rewrite CK, (cur_chk_vf _ _ _ _ Ev), (cur_chk_resolved s HV0 Er). }
-    destruct Hd; try (apply Gen; intros g0; discriminate).
-    (* the store section *)
-    assert (Hnd : gdone x = false) by (unfold gdone; now rewrite H0).
-    pose proof (pending_unresolved s (n2n g) x HCh HN HV0 H Hnd) as Er.
-    destruct (getg_nth_error s _ x H) as [Eg Hl]. destruct (HS _ Hl) as [S1 _]. rewrite Eg in S1. destruct (S1 v hr e H0) as [Hv _].
-    pose proof (store_vf s (n2n g) x v hr e H H0) as SV. cbv zeta in SV. cbn [step] in *.
-    assert (Hm : m_cur m = None) by (rewrite Hcur; unfold cur_of; now rewrite Er).
-    destruct HV0 as [_ [V2 _]]. destruct (V2 Er) as [_ [_ [_ [Et Ee]]]].
-    unfold u_cur2, u_stored_now, u_vof. rewrite (rp_const m h HP), Hc, Hm. cbn [po_target po_terr pobs_of].
-    destruct (vf_fields _ _ V') as [_ [_ [_ [_ [Et' Ee']]]]]. rewrite Et', Ee'.
-    destruct (Nat.eqb (nonce s) (gnonce x)).
-    - destruct SV as [A [B [C [D [E F]]]]]. rewrite E, F. unfold cur_of. rewrite A, C, D, nn_n2n.
-      destruct (Nat.eqb_spec e 0) as [E0|E0].
-      + destruct Hv as [Hv|[_ Hv]]; [|contradiction]. rewrite Hv, nn_S, nn_n2n, !N.eqb_refl. cbn [andb].
-        rewrite CK. unfold cur_chk. rewrite E, F. rewrite E0. cbn [Nat.eqb]. rewrite Hv, nn_S, nn_n2n, !N.eqb_refl. reflexivity.
-      + rewrite Et. change (nn 0) with 0%N. assert (Hg : N.eqb 0 (g + 1) = false) by (apply N.eqb_neq; lia). rewrite Hg. cbn [andb].
-        rewrite nz_nn. destruct (Nat.eqb_spec e 0) as [|_]; [contradiction|]. cbn [negb andb].
-        rewrite CK. unfold cur_chk. rewrite F. destruct (Nat.eqb_spec e 0) as [|_]; [contradiction|].
-        change 0%N with (nn 0). rewrite nn_eqb. destruct (Nat.eqb_spec e 0) as [|_]; [contradiction|]. rewrite N.eqb_refl. reflexivity.
-    - destruct (vf_fields _ _ SV) as [A [_ [_ [_ [E F]]]]]. rewrite E, F, Et, Ee. change (nn 0) with 0%N.
-      assert (Hg : N.eqb 0 (g + 1) = false) by (apply N.eqb_neq; lia). rewrite Hg. cbn. unfold cur_of. now rewrite A, Er.
-  Qed.
-End Cur.
 
 Section C94.
   Variables (m : mst) (h : hst) (e : list N) (e0 : ev) (rets : list N).
